@@ -354,3 +354,117 @@ def random_block(rng, ntx, segwit_ok=True, bad_root=False):
                        rng.randrange(2 ** 32), rng.choice([0x1D00FFFF, rng.randrange(2 ** 32)]), rng.randrange(2 ** 32))
     txb = [ref_wire(f) for f in txf]
     return hdr + compact_size(ntx) + b"".join(txb), hdr, txb, txids
+
+
+# ------------------------------------------------------------------ fresh-interpreter histories (fork server)
+# A "zygote" child imports pycoin's networks and this module but never packs or parses anything.  For every history it
+# forks; the grandchild runs the calls in order in that pristine state, prints one JSON line of answers and exits.
+
+HIST_NETS = ["btc", "ltc", "btg", "bch", "grs", "doge", "xtg"]
+
+ZYGOTE_SRC = r'''
+import sys, os, json, signal
+sys.path.insert(0, %(harness)r)
+import msglib as M
+from pycoin.networks.registry import network_for_netcode
+NETS = {}
+for code in M.HIST_NETS:
+    try:
+        NETS[code] = network_for_netcode(code.upper())
+    except Exception:
+        pass
+sys.stdout.write("ready " + ",".join(sorted(NETS)) + "\n"); sys.stdout.flush()
+for line in sys.stdin:
+    steps = json.loads(line)
+    pid = os.fork()
+    if pid == 0:
+        signal.signal(signal.SIGALRM, lambda *_: (sys.stdout.write(json.dumps(["HANG"]) + "\n"), sys.stdout.flush(), os._exit(0)))
+        signal.alarm(30)
+        out = [M.run_step(NETS, st) for st in steps]
+        sys.stdout.write(json.dumps(out) + "\n"); sys.stdout.flush()
+        os._exit(0)
+    os.waitpid(pid, 0)
+'''
+
+
+def run_step(nets, st: str) -> str:
+    """one `net:pack:name:fields` / `net:parse:name:hex` call on the real API; the answer in the driver's form"""
+    net_code, kind, name, arg = st.split(":")
+    net = nets[net_code]
+    try:
+        if kind == "pack":
+            fields = parse_fields(arg)
+            try:
+                kwargs = {k: to_py(v, net) for k, v in fields}
+            except Exception:  # noqa: BLE001
+                return "err:build"
+            data = net.message.pack(name, **kwargs)
+            return data.hex() or "-"
+        data = b"" if arg == "-" else bytes.fromhex(arg)
+        d = net.message.parse(name, data)
+        return dump_dict(d, [n for n, _ in REF.get(name, [])])
+    except Exception as e:  # noqa: BLE001
+        return "err:" + type(e).__name__
+
+
+class Zygote:
+    def __init__(self):
+        import os
+        import subprocess
+        import sys
+        here = os.path.dirname(os.path.abspath(__file__))
+        self.p = subprocess.Popen([sys.executable, "-c", ZYGOTE_SRC % {"harness": here}], stdin=subprocess.PIPE,
+                                  stdout=subprocess.PIPE, env=dict(os.environ))
+        first = self.p.stdout.readline().decode().strip()
+        if not first.startswith("ready"):
+            raise RuntimeError("history worker did not start: %r" % first)
+        self.nets = first.split(" ", 1)[1].split(",") if " " in first else []
+
+    def run(self, steps):
+        import json
+        self.p.stdin.write((json.dumps(steps) + "\n").encode())
+        self.p.stdin.flush()
+        line = self.p.stdout.readline()
+        if not line:
+            raise RuntimeError("history worker died")
+        return json.loads(line)
+
+
+_ZYGOTE = None
+
+
+def zygote() -> "Zygote":
+    global _ZYGOTE
+    if _ZYGOTE is None:
+        _ZYGOTE = Zygote()
+    return _ZYGOTE
+
+
+# ------------------------------------------------------------------ per-network reference encoders (headers / blocks)
+
+def btg_header_bytes(version, prev, root, height, timestamp, bits, nonce32, solution) -> bytes:
+    """Bitcoin Gold header (BTCGPU technical spec): version, prev, root, height, 28 reserved zero bytes, time, bits, 32-byte
+    nonce, var-length Equihash solution"""
+    return (struct.pack("<L", version) + prev + root + struct.pack("<L", height) + b"\0" * 28 + struct.pack("<LL", timestamp, bits)
+            + nonce32 + compact_size(len(solution)) + solution)
+
+
+def net_txid(code: str, fields) -> bytes:
+    from txlib import ref_legacy
+    b = ref_legacy(fields)
+    return hashlib.sha256(b).digest() if code == "grs" else dsha(b)
+
+
+def net_header(rng, code: str, root: bytes) -> bytes:
+    if code == "btg":
+        return btg_header_bytes(rng.choice([1, 0x20000000]), rng.randbytes(32), root, rng.choice([0, 491406, 491407, rng.randrange(2 ** 32)]),
+                                rng.randrange(2 ** 32), 0x1D00FFFF, rng.randbytes(32), rng.randbytes(rng.choice([0, 100, 1344])))
+    return header_bytes(rng.choice([1, 2, 0x20000000]), rng.randbytes(32), root, rng.randrange(2 ** 32), 0x1D00FFFF, rng.randrange(2 ** 32))
+
+
+def net_block(rng, code: str, ntx: int):
+    """(block bytes, header bytes) for the network's layout, independent encoders only"""
+    txf = [random_tx_fields(rng) for _ in range(ntx)]
+    root = ref_merkle([net_txid(code, f) for f in txf])
+    hdr = net_header(rng, code, root)
+    return hdr + compact_size(ntx) + b"".join(ref_wire(f) for f in txf), hdr
